@@ -903,11 +903,51 @@ func c07Vector(c *Ctx, raw stdjson.RawMessage) {
 		c07Total(c, mc)
 	}
 	c.Sample(map[string]any{"shape": v.Shape, "bytes": hex.EncodeToString(canon)})
+	// targets that are not structs: the value of a single plain field as the top-level target (*[]byte, *string,
+	// *int64, *[16]byte, ...): its own encoding, every prefix of it, and length prefixes that promise more than there is
+	if len(v.Shape) == 1 && v.Shape[0].C == "one" && !isMsgKind(v.Shape[0].K) {
+		x, _ := goValue(l, v.Shape, v.Val, false)
+		fv := reflect.ValueOf(x).Field(0)
+		var enc []byte
+		protect(func() { enc, _ = proto.Marshal(fv.Interface()) })
+		inputs := [][]byte{enc, {0x80, 0x80, 0x80, 0x20, 'a', 'b', 'c'}, {0xff, 0xff, 0xff, 0xff, 0xff, 0xff, 0xff, 0xff, 0x7f, 1},
+			{0x80, 0x80, 0x80, 0x80, 0x80, 0x80, 0x80, 0x80, 0x80, 0x01}, {0xff, 0xff, 0xff, 0xff, 0x0f, 1, 2, 3}}
+		for i := 0; i < len(enc); i++ {
+			inputs = append(inputs, enc[:i])
+		}
+		for _, in := range inputs {
+			c.Case()
+			c07TopLevel(c, mk("top-level "+v.Shape[0].K, in, ""), fv.Type())
+		}
+	}
+}
+
+// c07TopLevel: Unmarshal into a pointer to a non-struct type: error or value, no panic, allocation bounded by the input
+func c07TopLevel(c *Ctx, k protoCase, t reflect.Type) {
+	b, _ := hex.DecodeString(k.Bytes)
+	var alloc uint64
+	var pan string
+	c.Eval(1)
+	meterMu.Lock()
+	protect(func() { proto.Unmarshal(b, reflect.New(t).Interface()) }) // first use compiles the codec
+	alloc = allocDuring(func() { pan = protect(func() { proto.Unmarshal(b, reflect.New(t).Interface()) }) })
+	meterMu.Unlock()
+	if pan != "" {
+		c.Diverge("C07", "proto.Unmarshal(*"+t.String()+")", "error or value, no panic", pan, "", k)
+		return
+	}
+	if bound := uint64(256*len(b) + 65536); alloc > bound {
+		c.Diverge("C07", "proto.Unmarshal(*"+t.String()+")", fmt.Sprintf("allocation <= %d for %d input bytes", bound, len(b)), fmt.Sprint(alloc), "", k)
+	}
 }
 
 func c07Replay(c *Ctx, raw stdjson.RawMessage) {
 	var k protoCase
 	if stdjson.Unmarshal(raw, &k) == nil {
+		if strings.HasPrefix(k.What, "top-level ") && len(k.Shape) == 1 {
+			c07TopLevel(c, k, elemType(k.Shape[0].K))
+			return
+		}
 		c07Total(c, k)
 	}
 }
